@@ -15,6 +15,14 @@ fn main() {
         }
         return;
     }
+    if args.first().map(|s| s.as_str()) == Some("--gen-corpus") {
+        for (target, name, bytes) in foca_verif::fuzzing::gen_corpus() {
+            let dir = verif_root().join("corpus").join(target);
+            let _ = std::fs::create_dir_all(&dir);
+            std::fs::write(dir.join(name), bytes).expect("write corpus file");
+        }
+        return;
+    }
     if args.len() < 2 {
         usage();
     }
